@@ -110,10 +110,19 @@ class World:
         self.steps.append(['d', r])
         return True
 
-    def ext_touch(self, r):
+    def ext_touch(self, r, delta_ns=None):
+        """new mtime, same content; delta_ns: move the current mtime by that many ns instead of a fresh stamp"""
         p = self.ap(r)
         if self._kind(p) != 'f' or p == self.cache:
             return False
+        if delta_ns is not None:
+            st = os.stat(p).st_mtime_ns + delta_ns
+            os.utime(p, ns=(st, st))
+            e = self.model.disk[p]
+            old = e[2]
+            self.model.disk[p] = ('f', e[1], (old + delta_ns) if isinstance(old, int) else ('moved', old, delta_ns))
+            self.steps.append(['touch', r, delta_ns])
+            return True
         st = env.CLOCK.next()
         os.utime(p, ns=(st, st))
         e = self.model.disk[p]
